@@ -28,18 +28,18 @@ ASSUMPTIONS = ['vf/models/x690.py implements X.690 DER (self-test vectors from X
 REPORT = ['modules', 'evaluations', 'byte_comparisons', 'model_undecided', 'equal_value_variants', 'set_reordered',
           'setof_reordered', 'default_omitted', 'high_tag', 'long_length', 'not_accepted_by_checks', 'carved_out']
 FLOORS = {'quick': {'byte_comparisons': 15000, 'set_reordered': 50, 'setof_reordered': 50},
-          'thorough': {'byte_comparisons': 150000}}
+          'thorough': {'byte_comparisons': 60000, 'set_reordered': 200, 'setof_reordered': 200}}
 TIMEOUT = {'quick': 1800, 'thorough': 14000}
 
 
 def shards(tier):
-    return 32 if tier == 'quick' else 128
+    return 32 if tier == 'quick' else 64
 
 
 def params(tier):
     if tier == 'quick':
         return {'modules': 8, 'values': 10}
-    return {'modules': 30, 'values': 20}
+    return {'modules': 24, 'values': 15}
 
 
 def profile(tier):
